@@ -226,6 +226,10 @@ func (fv *FV) callEffects(li *LoopInfo, c *ssa.CallCommon, depth int) {
 		// dynamic call through a func value
 		if spec := fv.functypeSpec(c.Value.Type()); spec != nil {
 			fv.specEffects(li, spec, nil, c)
+		} else if targets := fv.eng.funcTargets(c.Value.Type()); len(targets) > 0 {
+			for _, tg := range targets {
+				fv.fnEffects(li, tg.Fn, nil, depth)
+			}
 		} else {
 			li.All = true
 		}
@@ -331,8 +335,16 @@ func (fv *FV) assignHeapStatic(e Expr, spec *FuncSpec, fn *ssa.Function, c *ssa.
 		if x.Fn == "anyobj" && len(x.Args) == 1 {
 			// anyobj(T.f): field f of every object of type T
 			if sel, ok := x.Args[0].(*ESel); ok {
+				tname := ""
 				if id, ok := sel.X.(*EIdent); ok {
-					if gt, err := fv.eng.resolveType(id.Name, spec.PkgName); err == nil {
+					tname = id.Name
+				} else if q, ok := sel.X.(*ESel); ok {
+					if id, ok := q.X.(*EIdent); ok {
+						tname = id.Name + "." + q.Name
+					}
+				}
+				if tname != "" {
+					if gt, err := fv.eng.resolveType(tname, spec.PkgName); err == nil {
 						if path := findFieldPath(gt, sel.Name); len(path) == 1 {
 							stt := gt.Underlying().(*types.Struct)
 							return []string{fieldHeapName(gt, path[0])}, []string{arraySort(SInt, fv.sortOf(stt.Field(path[0]).Type()))}, true
@@ -626,6 +638,14 @@ func (fv *FV) typeAssume(st *State, c Term, t types.Type) {
 		fv.assumeTypeInv(st, c, t)
 	case *types.Slice:
 		st.assume(Term{S: fmt.Sprintf("(>= (%s_len %s) 0)", c.Sort, c.S), Sort: SBool})
+	case *types.Interface:
+		if c.Sort == SVal {
+			// a pointer held in an interface value denotes an allocated object
+			fv.kindUsed = true
+			fv.decls.Add(1, "pv_kind", "(declare-fun pv_kind (Int) Int)\n(declare-fun pv_telem (Int) Int)\n(declare-fun pv_tkey (Int) Int)\n(assert (= (pv_kind 0) 0))")
+			nx := fv.nextOf(st.heap, st.epoch)
+			st.assume(Term{S: fmt.Sprintf("(=> (= (pv_kind (pv_tid %s)) 22) (and (<= 0 (pv_pay %s)) (< (pv_pay %s) %s)))", c.S, c.S, c.S, nx.S), Sort: SBool})
+		}
 	}
 }
 
@@ -668,6 +688,10 @@ func (fv *FV) run(st0 *State) {
 			cur := st
 			st, forks = fv.step(st)
 			work = append(work, forks...)
+			if len(fv.pendingForks) > 0 {
+				work = append(work, fv.pendingForks...)
+				fv.pendingForks = nil
+			}
 			if st == nil {
 				fv.leaves = append(fv.leaves, cur.script)
 			}
